@@ -24,21 +24,35 @@ def term(t):
     return s
 
 
-def definition(d):
+def definition(d, inblock=False):
     nm, ps, body = ATOM[d["nm"]], [ATOM[p] for p in d["ps"]], term(d["body"])
-    if d["sp"] == "macro":
-        return "macro %s%s == %s" % (nm, ("(%s)" % ", ".join(ps)) if ps else "", body)
-    if d["sp"] == "lam":
-        return "%s ==> macro (%s) +-> %s" % (nm, ", ".join(ps), body)
+    if d["sp"] == "lam":       # the macro function written out (the grammar wants it in parentheses)
+        return "%s %s (macro (%s) +-> %s)" % (nm, "==" if inblock else "==>", ", ".join(ps), body)
+    if d["sp"] == "macro" or inblock:
+        return "%s%s%s == %s" % ("" if inblock else "macro ", nm, ("(%s)" % ", ".join(ps)) if ps else "", body)
     return "%s%s ==> %s" % (nm, ("(%s)" % ", ".join(ps)) if ps else "", body)
+
+
+def front(ds, blk):
+    """the definitions that stand in front of the use, as statements"""
+    if blk and ds:
+        return ["macro { %s }" % "; ".join(definition(d, True) for d in ds)]
+    return [definition(d) for d in ds]
 
 
 def render(rec, typed, uid="0"):
     """The statements of one macro program.  typed: the use stands where a SingleInteger is required (names uq*, Dq*,
     fq* carry uid so that several programs could share a file)."""
-    defs = [definition(d) for d in rec["defs"]]
     use = term(rec["use"])
-    scope, vis, n = rec["scope"], rec["vis"], len(defs)
+    scope, vis, blk = rec["scope"], rec["vis"], rec.get("blk")
+    if scope == "where" or vis < 0:
+        defs, vis = front(rec["defs"], blk), (len(rec["defs"]) if vis >= 0 else vis)
+        if vis >= 0:
+            vis = len(defs)
+    else:
+        defs = front(rec["defs"][:vis], blk)
+        vis = len(defs)
+        defs += [definition(d) for d in rec["defs"][rec["vis"]:]]
     ty = ": SingleInteger" if typed else ""
     ret = "SingleInteger" if typed else "T"
     u = "uq" + uid
@@ -90,15 +104,17 @@ def family(chk, d, tier, seed, hosts, typed_every=4, host_every=9):
     into a valid host text (hosts: [(id, bytes, args)]; appended at its end, or inserted after its first line)."""
     lv = {"L1": 0, "L2": 0, "L3": 0, "L4": 0}
     if tier == "quick":
+        mix = '{"mix"}'
         parts = [(dict(lv, L1=3, DStride=1, Stride=1), 1),
-                 (dict(lv, L2=2, DStride=5, Stride=7), 2),
-                 (dict(lv, L3=1, DStride=14, Stride=13), 2)]
+                 (dict(lv, L2=2, DStride=5, Stride=7, VisModes=mix), 2),
+                 (dict(lv, L3=1, DStride=14, Stride=13, VisModes=mix), 2)]
     else:
+        mix = '{"mix"}'
         parts = [(dict(lv, L1=3, DStride=1, Stride=1, Rots="{0, 1, 2, 3, 5, 7, 11, 13}"), 1),
-                 (dict(lv, L2=2, DStride=1, Stride=1), 8),
-                 (dict(lv, L2=3, DStride=61, Stride=5), 8),
-                 (dict(lv, L3=1, DStride=1, Stride=5), 8),
-                 (dict(lv, L4=1, DStride=3, Stride=5), 8)]
+                 (dict(lv, L2=2, DStride=1, Stride=1, VisModes=mix), 8),
+                 (dict(lv, L2=3, DStride=61, Stride=5, VisModes=mix), 8),
+                 (dict(lv, L3=1, DStride=1, Stride=5, VisModes=mix), 8),
+                 (dict(lv, L4=1, DStride=3, Stride=5, VisModes=mix), 8)]
     recs = programs(chk, d, parts, seed if tier != "quick" else 0, parallel=4 if tier == "quick" else 12)
     recs.sort(key=lambda r: json.dumps(r, sort_keys=True))
     ins = []
@@ -106,10 +122,10 @@ def family(chk, d, tier, seed, hosts, typed_every=4, host_every=9):
         name = [r["h"], len(r["defs"]), json.dumps(r["defs"], sort_keys=True), json.dumps(r["use"], sort_keys=True),
                 r["scope"], r["vis"]]
         label = {"defs": len(r["defs"]), "scope": r["scope"], "vis": r["vis"], "graph_cycle": r["g"], "undecided": r["u"]}
-        ins.append(Input("macro", name + ["ap"], render(r, False).encode(), r["c"], feat=[], kinds=("ap",), label=label))
+        ins.append(Input("macro", name + ["ap"], render(r, False).encode(), r["c"], feat=r["f"], kinds=("ap",), label=label))
         if i % typed_every == seed % typed_every:
             ins.append(Input("macro", name + ["ao"], (TYPED_PRELUDE + render(r, True)).encode(), r["c"] + r["t"],
-                             feat=[], kinds=("ao",), label=label))
+                             feat=r["f"], kinds=("ao",), label=label))
         if hosts and i % host_every == seed % host_every and r["c"]:
             hid, hdata, hargs = hosts[(i // host_every) % len(hosts)]
             piled = b"\n#pile" in hdata
@@ -118,6 +134,6 @@ def family(chk, d, tier, seed, hosts, typed_every=4, host_every=9):
             body = render(r, False).encode()
             if not hdata.endswith(b"\n"):
                 hdata += b"\n"
-            ins.append(Input("macro", name + ["host", hid], hdata + body, r["c"], feat=[], args=hargs,
+            ins.append(Input("macro", name + ["host", hid], hdata + body, r["c"], feat=r["f"], args=hargs,
                              kinds=("ao",), label=dict(label, host=hid, piled=piled)))
     return ins
